@@ -10,6 +10,13 @@ CommonRequests ==
     UNION {{[op |-> "decode2", tag |-> "common-request", c |-> c, sv |-> <<sv>>, wire |-> HostEncode(c, sv, F0)] :
                sv \in SmallSubsetsOf(ReqMin(c), ReqOptVals(c, F0)) \cup {ReqRich(c, F0)}} : c \in ParamCommands}
 
+\* the large-blobs REQUEST has no feature-gated member: its decoding must not depend on the
+\* feature-dependent fragment constant either
+LbWindows ==
+    {[op |-> "decode2", tag |-> "common-request-lb", c |-> 12, sv |-> <<sv>>, wire |-> HostEncode(12, sv, F0)] :
+        sv \in {[LbReqMin EXCEPT !.get = <<g>>] : g \in {BN(1), BN(255), BN(960), BN(961), BN(1024), BN(3008), BN(3009), BN(65536), BNMaxU32}}
+               \cup {[LbReqMin EXCEPT !.set = <<Pattern(1, n)>>, !.length = <<BN(n)>>] : n \in {1, 255, 960, 961, 3008, 3009}}}
+
 CommonResponses ==
     {RespCase("GetInfo", v, 7609, "common-response") : v \in SmallSubsetsOf(GiMin, GiOptionalVals(F0))}
     \cup {RespCase("GetInfo", [GiMin EXCEPT !.options = <<o>>], 7609, "common-response") : o \in SubsetsOf(GiOptMin, GiOptOptVals(F0))}
@@ -29,7 +36,7 @@ CommonTypes ==
                    acd |-> <<[aaguid |-> Pattern(102, 16), idLen |-> 32, idSeed |-> 103, pk |-> Pattern(101, 77)]>>,
                    ext |-> <<e>>]] : e \in SubsetsOf(McExtMin, McExtOptVals(F0))}
 
-MC_Cases == CommonRequests \cup CommonResponses \cup CommonTypes
+MC_Cases == CommonRequests \cup LbWindows \cup CommonResponses \cup CommonTypes
 
 \* Strictness: a GetInfo message carrying a key that does not exist in configuration F must be
 \* refused under F (the integer-keyed maps are strict), and a key that exists must carry its type.
